@@ -145,8 +145,12 @@ def run_cases(cases, total_timeout):
         def path_fn():
             try:
                 return ("ok", case.run())
-            except (Escape,):
-                raise
+            except Escape as e:
+                # this path left the modelled fragment: it is neither a pass nor a violation
+                state["escaped"] = state.get("escaped", 0) + 1
+                state["escape_msg"] = str(e)
+                from .core import PathAbort
+                raise PathAbort()
             except Exception as e:
                 from .core import PathAbort, Budget
                 if isinstance(e, (PathAbort, Budget)):
@@ -218,6 +222,8 @@ def run_cases(cases, total_timeout):
         if state["mismatch"]:
             out["inconclusive"] = state["mismatch"]
             break
+        if status == "exhausted" and state.get("escaped"):
+            status = f"escape on {state['escaped']} path(s): {state['escape_msg']}"
         if status != "exhausted":
             out["inconclusive"] = f"case {case.label}: {status}"
             # keep going: other cases may still find violations
